@@ -176,12 +176,10 @@ Definition check_stop (c : case) (q : stopreq) : list req_result :=
               | Some k => Nat.min (sq_limit q) (S k)
               | None => sq_limit q
               end in
-  let p := N.eqb (ob_err i) 0 && strs_eqb (ob_names i) (firstn want M) && live_kept (dir c) (ob_after i) in
-  let t := match trig (prefix c) (pat c) with
-           | Some k => Some k
-           | None => if trig_stop (sq_ans q) then Some 1%N else None
-           end in
-  [ (obs_eqb m i, p, t) ].
+  let p := N.eqb (ob_err i) 0 && strs_eqb (ob_names i) (firstn want M) && stop_respected (sq_ans q) (ob_names i) &&
+           live_kept (dir c) (ob_after i) in
+  (* (a stopped callback that is called again was finding 1; repaired, no trigger left) *)
+  [ (obs_eqb m i, p, trig (prefix c) (pat c)) ].
 
 (* the gRPC loop sends exactly the first gq_limit matches of the prefix listing *)
 Definition check_grpc (c : case) (g : grpcreq) : list req_result :=
@@ -193,7 +191,7 @@ Definition check_grpc (c : case) (g : grpcreq) : list req_result :=
            | Some pgs => strs_eqb (List.concat pgs) (firstn (gq_limit g) M0) && all_within (gq_pag g) pgs
            | None => false
            end in
-  [ (opages_eqb m i, p, Some 1%N) ].
+  [ (opages_eqb m i, p, None) ].
 
 Definition split_ok (x : string * (string * string)) : bool :=
   let '(p, (a, b)) := x in
